@@ -3,11 +3,23 @@ import Ufo2ftModel.Spec.C06
 namespace Ufo2ft.Drv.C06
 open Lean Ufo2ft.Drv Ufo2ft.C06
 
-def errS : Err → String | .valueError => "ValueError" | .assertionError => "AssertionError"
+def errS : Err → String
+  | .valueError => "ValueError" | .assertionError => "AssertionError"
+  | .keyErrorObjectLibs => "KeyError" | .keyErrorMarkClass => "KeyError"
+
+def errDetail : Err → String
+  | .valueError => "ValueError" | .assertionError => "AssertionError"
+  | .keyErrorObjectLibs => "KeyError:objectLibs" | .keyErrorMarkClass => "KeyError:markClass"
+
+/-- rejecting a font because of a malformed anchor name or context string is what the writer documents; a KeyError on a
+    well-formed font is a crash -/
+def errAcceptable : Err → Bool
+  | .valueError => true | .assertionError => true | _ => false
 
 def asAnchor (j : Json) : R SrcAnchor := do
   match ← asArr j with
-  | [n, x, y] => return ⟨← asStr n, ← asRat x, ← asRat y⟩
+  | [n, x, y] => return { name := ← asStr n, x := ← asRat x, y := ← asRat y }
+  | [n, x, y, l, d] => return { name := ← asStr n, x := ← asRat x, y := ← asRat y, lib := ← asOpt asStr l, idNoLib := ← asBool d }
   | _ => throw "anchor"
 
 def asGlyph (j : Json) : R SrcGlyph := do
@@ -54,24 +66,39 @@ def ligCounts (i : Input) (P : Program) : List (String × Nat) :=
       (L.entries.filter (fun e => e.glyph == g)).map (fun e => e.comps.length) else []))
     if n == 0 then none else some (g, n))
 
+def ctxJ (i : Input) (P : Program) (K : Nat) (c : CtxFeature) : Json :=
+  let gl := i.glyphs.map (·.name)
+  let ms := gl.filter (fun g => P.classes.any (fun cl => cl.2.any (fun r => r.glyph == g)))
+  Json.mkObj [
+    ("ref", listJ (fun (L : Lookup) =>
+      let bs := gl.filter (fun g => L.entries.any (fun e => e.glyph == g))
+      let qs : List Query := bs.flatMap (fun b => ms.flatMap (fun m => (none :: (List.range K).map some).map (fun c => (b, m, c))))
+      listJ entryJ (tableOf P [L] qs)) c.refs),
+    ("disp", listJ (fun (d : String × List (String × String)) =>
+      Json.arr #[Json.str d.1, listJ (fun (l : String × String) => Json.arr #[Json.str l.1, Json.str l.2]) d.2]) c.disp)]
+
 def font (req : Json) : R Reply := do
   let ij ← field req "in"
   let i ← asInput ij
   let K ← asNat (← field ij "K")
   let obs ← field req "obs"
   let oerr ← asOpt asStr (← field obs "err")
-  match model i with
+  match modelX i with
   | .error e =>
-    -- the writer rejects the font: the property is about accepted fonts; the implementation must reject too
-    return { model := Json.mkObj [("err", Json.str (errS e))], holds := oerr == some (errS e) }
-  | .ok P =>
+    -- the writer rejects the font: a malformed anchor name / context string must be rejected by the implementation too;
+    -- a KeyError on a well-formed font is a failure of the property (nothing gets attached at all)
+    return { model := Json.mkObj [("err", Json.str (errS e)), ("errDetail", Json.str (errDetail e)), ("wf", Json.bool (wf i))],
+             holds := errAcceptable e && oerr == some (errS e) }
+  | .ok X =>
+    let P := X.plain
     let qs := queries i P K
     let tabs := FEATS.map (fun f => (f, tableOf P (P.lookups.filter (fun L => L.feature == f)) qs))
     let all := tableOf P P.lookups qs
     let model := Json.mkObj [("err", Json.null),
       ("tables", Json.mkObj ((tabs ++ [("all", all)]).map (fun t => (t.1, listJ entryJ t.2)))),
       ("ligCount", listJ (pairJ Json.str natJ) (ligCounts i P)),
-      ("wf", Json.bool (wf i)),
+      ("ctx", Json.mkObj [("mark", ctxJ i P K X.markCtx), ("mkmk", ctxJ i P K X.mkmkCtx)]),
+      ("wf", Json.bool (wf i)), ("wf0", Json.bool (wf0 i)),
       ("eligible", natJ ((allQueries i K).filter (fun q => eligible i q.1 q.2.1 q.2.2)).length)]
     match oerr with
     | some _ => return { model, holds := false }
@@ -82,6 +109,11 @@ def font (req : Json) : R Reply := do
       for f in FEATS do
         let t ← asList asEntry (← field ot f)
         ok := ok && holdsOffset i t
+      let oc ← field obs "ctx"
+      for f in ["mark", "mkmk"] do
+        let refs ← asList (asList asEntry) (← field (← field oc f) "ref")
+        for t in refs do
+          ok := ok && holdsCtxOffset i t
       return { model, holds := ok }
 
 def handle (op : String) (req : Json) : R Reply :=
